@@ -233,6 +233,7 @@ class Report(object):
         q = dict(unsat=0, sat=0, unknown=0)
         paths = 0
         solver_s = 0.0
+        feas = feas_unknown = 0
         undecided = []
         incomplete = []
         for u in self.units:
@@ -241,6 +242,8 @@ class Report(object):
                 q[k] += st.get("queries", {}).get(k, 0)
             paths += st.get("paths", 0)
             solver_s += st.get("solver_s", 0.0)
+            feas += st.get("feasibility_checks", 0)
+            feas_unknown += st.get("feasibility_unknown", 0)
             if st.get("incomplete"):
                 incomplete.append("%s: %s" % (u.get("unit"), st["incomplete"]))
             for o in u.get("undecided", []):
@@ -249,12 +252,16 @@ class Report(object):
         ndis = sum(u.get("discharged", 0) for u in self.units)
         cov = dict(
             explanation=(
-                "%s. %d units, %d paths explored symbolically, %d solver "
+                "%s. %d units, %d paths explored symbolically (every branch "
+                "decision is a solver feasibility query: %d of them, %d "
+                "answered unknown and then kept as feasible), %d claim "
                 "queries (%d unsat = claim holds on that path for every "
-                "input within the bounds, %d sat = counter-example, %d "
-                "unknown = inconclusive)." %
-                (self.technique, len(self.units), paths, sum(q.values()),
-                 q["unsat"], q["sat"], q["unknown"])),
+                "input within the bounds, %d sat = claim refuted - a "
+                "counter-example, or a candidate match rejected where the "
+                "check searches for a matching record, %d unknown = "
+                "inconclusive)." %
+                (self.technique, len(self.units), paths, feas, feas_unknown,
+                 sum(q.values()), q["unsat"], q["sat"], q["unknown"])),
             evaluations=max(1, paths),
             distinct_nontrivial=max(2, len([u for u in self.units if
                                             u.get("obligations", 0) > 0])),
@@ -263,6 +270,7 @@ class Report(object):
                  "one claim was posed to the solver on it",
             obligations=nobl, discharged=ndis,
             queries=q, paths=paths, solver_s=round(solver_s, 2),
+            feasibility_queries=feas, feasibility_unknown=feas_unknown,
             solver="z3 %s" % _z3v(),
             functions_encoded=self.functions,
             bounds=self.bounds,
